@@ -37,6 +37,7 @@ TRAINERS = [
     ("km_explicit", dict(cap=3, thr=None)),
     ("km_explicit", dict(cap=6, thr=0.05)),
     ("km_random", dict(cap=2, thr=None, rs=1)),
+    ("km_dup_init", dict(cap=2, thr=None)),
     ("gmm_ml", dict(sw=(1, 1, 1), cap=2, thr=None)),
     ("gmm_ml", dict(sw=(1, 0, 0), cap=6, thr=1e-2)),
     ("gmm_ml", dict(sw=(0, 1, 1), cap=2, thr=None)),
@@ -101,8 +102,12 @@ def _train(case, X, A):
     name, cfg = case["trainer"], case["cfg"]
     s, o = affine(case["seed"])
     n = case["n"]
-    if name in ("km_explicit", "km_random", "km_parallel_init"):
-        if name == "km_explicit":
+    if name in ("km_explicit", "km_random", "km_parallel_init", "km_dup_init"):
+        if name == "km_dup_init":
+            # degenerate start: two coinciding centroids (the second one never attracts a sample)
+            init = np.array([[1.0, 0.5], [1.0, 0.5], [10.0, 10.0]]) * s + o
+            m = KMeansMachine(3, init_method=init, max_iter=cfg["cap"], convergence_threshold=cfg["thr"])
+        elif name == "km_explicit":
             init = np.array([[0.0, 0.0], [1.0, 1.0]]) * s + o
             m = KMeansMachine(2, init_method=init, max_iter=cfg["cap"], convergence_threshold=cfg["thr"])
         elif name == "km_random":
